@@ -459,11 +459,12 @@ class Gen:
         if ctx == "mc":
             kinds = ["def", "def", "defm", "foreach", "let", "if"]
         elif ctx == "defset":
-            kinds = ["def", "def", "def", "foreach", "let", "if", "defm"]
+            # a nested defset is a top-level outline entry of its own; defs after it belong to the OUTER defset again
+            kinds = ["def", "def", "def", "foreach", "let", "if", "defm", "defset", "def"]
         else:
             kinds = ["class", "class", "class", "def", "def", "defset", "multiclass", "foreach", "let", "if", "defvar", "defm"]
         if depth >= 2:
-            kinds = [k for k in kinds if k in ("def", "class", "defm", "defvar")] or ["def"]
+            kinds = [k for k in kinds if k in ("def", "class", "defm", "defvar") or (k == "defset" and ctx == "defset" and depth == 2)] or ["def"]
         k = r.choice(kinds)
         if k == "defm" and not self.multiclasses:
             k = "def"
@@ -708,6 +709,12 @@ class Gen:
         n = r.randrange(0, 4)
         for _ in range(n):
             self.statement("defset", children, depth + 1)
+        if ctx != "defset" and depth < 2 and r.random() < 0.2:
+            # an inner defset followed by a def of the OUTER defset
+            self.st_defset("defset", children, depth + 1)
+            self.st_def("defset", children, depth + 1)
+            n += 2
+            self.features.add("def-after-inner-defset")
         self.indent -= 1
         if n:
             self.stmt_gap()
@@ -716,6 +723,8 @@ class Gen:
         _, fold[1] = self.emit("}")
         self.last_stmt_end = fold[1]
         self.features.add("defset-%d" % min(n, 3))
+        if ctx == "defset":
+            self.features.add("defset-nested")
 
     def st_multiclass(self, ctx, container, depth):
         r = self.rng
